@@ -634,7 +634,7 @@ func (s *Seq) opCreate(op *Op) {
 	if op.NCfg != nil {
 		// only the cache / async settings change; everything else is the run's configuration
 		nc := *s.Cfg
-		nc.Cache, nc.Async, nc.Threshold, nc.TimeoutMs = op.NCfg.Cache, op.NCfg.Async, op.NCfg.Threshold, op.NCfg.TimeoutMs
+		nc.Cache, nc.Async, nc.Threshold, nc.TimeoutMs, nc.OffStruct = op.NCfg.Cache, op.NCfg.Async, op.NCfg.Threshold, op.NCfg.TimeoutMs, op.NCfg.OffStruct
 		cfg = &nc
 	}
 	err := s.db.Create(rec0(), cfg.Schema())
@@ -646,7 +646,7 @@ func (s *Seq) opCreate(op *Op) {
 		// settings switch: the model state must be unaffected
 		wasAsync := s.Cfg.Async
 		nc := *s.Cfg
-		nc.Cache, nc.Async, nc.Threshold, nc.TimeoutMs = cfg.Cache, cfg.Async, cfg.Threshold, cfg.TimeoutMs
+		nc.Cache, nc.Async, nc.Threshold, nc.TimeoutMs, nc.OffStruct = cfg.Cache, cfg.Async, cfg.Threshold, cfg.TimeoutMs, cfg.OffStruct
 		s.Cfg = &nc
 		if wasAsync && !nc.Async {
 			s.stat("create-async-off")
